@@ -255,7 +255,10 @@ def send_monitors(xfer, data, mtu, frames):
     for f in frames:
         r = rd_frames(f)
         if r is None or len(r[0]) != 1 or r[1]:
-            if len(data) < 2 ** 20:
+            if len(f) - 4 >= 2 ** 20:
+                out.append(('C20:length-field-wraps', 'frame of %d octets: the 20-bit length field says %d, the frame does not '
+                            'decode to its message' % (len(f), (len(f) - 4) % 2 ** 20)))
+            else:
                 out.append(('C20:frame-declared-length-wrong', f[:24].hex()))
             return out
         parsed.append(r[0][0])
@@ -301,6 +304,8 @@ def send_cases(chk):
         cases.append((1, L, None))
         cases.append((1, L, 2 ** 20 + 8))
         cases.append((1, L, 9000))
+    cases.append((1, 2 ** 20 + 4, 2 ** 20 + 8))       # segmented with mtu - 4 >= 2^20
+    cases.append((1, 2 ** 20 + 9, 2 ** 20 + 3))       # segmented, largest MTU whose frames still fit the length field
     cases.append((5, 200, None))
     for _ in range(600 if thorough else 80):
         L = rng.choice([rng.randrange(0, 300), rng.randrange(0, 5000)])
@@ -314,11 +319,12 @@ def run_send(chk, rig, cases):
     for (xfer, L, m) in cases:
         data = payload(L, xfer % 7)
         small = m is not None and L + 4 >= m and m <= 18          # independent arithmetic
+        toolong = (m is None or L + 4 < m) and L >= 2 ** 20       # one PDU that the 20-bit length cannot declare
         expect = 1 if (m is None or L + 4 < m) else ((L + (m - 19)) // (m - 18) if m > 18 else 0)
         res = rig.send(xfer, data, m, expect + 5 if not small else 50)
-        ptx = rig.process_tx(xfer, data, m, expect + 5 if not small else 50) if (small or expect <= 300) and L < 2 ** 19 else None
+        ptx = rig.process_tx(xfer, data, m, expect + 5 if not small else 50) if (small or toolong or (expect <= 300 and L < 2 ** 19)) else None
         reqs.append({'op': 'btpu.send', 'xfer': xfer, 'data': data.hex(), **({} if m is None else {'mtu': m})})
-        obs.append((xfer, data, m, res, small, ptx))
+        obs.append((xfer, data, m, res, small or toolong, ptx))
     answers = chk.driver(reqs) if reqs else []
     for (xfer, data, m, res, small, ptx), ans in zip(obs, answers):
         rep = {'kind': 'send', 'xfer': xfer, 'data': data.hex() if len(data) <= 64 else None, 'len': len(data),
@@ -345,14 +351,18 @@ def run_send(chk, rig, cases):
                 chk.violation('C20:frames-before-failure', '%d frames were yielded before %s' % (len(res[2]), res[1]), rep)
             if not small:
                 chk.violation('C20:send-fails-although-mtu-suffices',
-                              '_send_transfer(xfer=%d, %d octets, mtu_default=%s) raised %s although mtu > 18 or the bundle fits one PDU'
+                              '_send_transfer(xfer=%d, %d octets, mtu_default=%s) raised %s although mtu > 18 or the bundle fits one PDU < 2^20'
                               % (xfer, len(data), m, res[1]), rep)
             frames = None
         else:
             frames = res[1]
             chk.count('send:single' if (m is None or len(data) + 4 < m) else
                       'send:segments-%s' % ('0-1' if len(frames) <= 1 else '2-6' if len(frames) <= 6 else '7-99' if len(frames) < 100 else '100+'))
-            if small:
+            if small and len(data) >= 2 ** 20 and (m is None or len(data) + 4 < m):
+                chk.violation('C20:length-field-wraps',
+                              'a bundle of %d octets (>= 2^20) with mtu_default=%s is sent as one Bundle PDU whose 20-bit length field '
+                              'says %d: the frame does not decode to the bundle' % (len(data), m, len(data) % 2 ** 20), rep)
+            elif small:
                 chk.violation('C20:mtu-too-small-not-failed', 'mtu_default=%s leaves no room for data but %d frames were produced'
                               % (m, len(frames)), rep)
             if ans.get('failed'):
@@ -368,23 +378,17 @@ def run_send(chk, rig, cases):
             elif esc is not None or [f.hex() for f in sent] != ans.get('sent'):
                 chk.corr_break('_process_tx_queue differs: escaped %s, %d frames sent (model %d)' % (esc, len(sent), len(ans.get('sent', []))), rep)
             if small and (sent or esc is not None) and not endless:
-                chk.violation('C20:mtu-too-small-not-failed', 'mtu_default=%s leaves no room for data but _process_tx_queue sent %d frames / escaped %s'
+                chk.violation('C20:length-field-wraps' if len(data) >= 2 ** 20 and m != 0 and (m is None or m > 18) else 'C20:mtu-too-small-not-failed',
+                              'mtu_default=%s: nothing may be sent but _process_tx_queue sent %d frames / escaped %s'
                               % (m, len(sent), esc), rep)
         if frames is None:
-            continue
-        if len(data) >= 2 ** 20 and (m is None or len(data) + 4 < m):
-            # in scope of the text ("every message set the agent builds … declared lengths equal to actual lengths")
-            chk.count('send:length-field-wraps')
-            r = rd_frames(frames[0]) if frames else None
-            if r is None or len(r[0]) != 1 or r[0][0][3] != data:
-                chk.violation('C20:length-field-wraps',
-                              'a bundle of %d octets (>= 2^20) with mtu_default=%s is sent as one Bundle PDU whose 20-bit length field '
-                              'says %d: the frame does not decode to the bundle' % (len(data), m, len(data) % 2 ** 20), rep)
             continue
         for sig, what in send_monitors(xfer, data, m, frames):
             chk.violation(sig, what, rep)
         # what the agent built must decode to the same messages and re-encode to itself
         for f in frames[:3] + frames[-2:]:
+            if len(f) - 4 >= 2 ** 20:
+                continue            # already reported as C20:length-field-wraps
             d = rig.decode(f)
             r = rd_frames(f)
             if d.get('reenc') != f.hex() or r is None or 'msgs' not in d or len(d['msgs']) != 1 or \
@@ -725,13 +729,8 @@ def replay(chk, path):
         frames = res[1]
         print('observed: %d frames of sizes %s' % (len(frames), [len(f) for f in frames][:20]))
         if len(data) >= 2 ** 20 and (rep['mtu'] is None or len(data) + 4 < rep['mtu']):
-            r = rd_frames(frames[0])
-            okay = r is not None and len(r[0]) == 1 and r[0][0][3] == data
-            print('frame head %s: declared length %d, actual payload %d octets' % (
-                frames[0][:4].hex(), int.from_bytes(frames[0][1:4], 'big') & 0xfffff, len(frames[0]) - 4))
-            if not okay:
-                print('MONITOR C20:length-field-wraps: the frame does not decode to the bundle')
-            return 0 if okay else 1
+            print('MONITOR C20:length-field-wraps: one Bundle PDU of %d octets, head %s' % (len(data), frames[0][:4].hex()))
+            return 1
         viol = send_monitors(rep['xfer'], data, rep['mtu'], frames)
         for sig, what in viol:
             print('MONITOR %s: %s' % (sig, what))
